@@ -89,6 +89,19 @@ func runC04(c c04Case) (*vh.Violation, vh.Outcome) {
 	if len(wire) < off || !bytes.Equal(wire[off:], wantBody) {
 		return vh.V("C04/wire-body-offset", "Marshal does not carry the signing body at offset 6+66*nsigs"), o
 	}
+	// the digest recomputed from the wire form (what a peer, the explorer and the contracts start from) is the same one
+	if v.Version == 1 && len(b.Payload) > 0 {
+		u, err := Unmarshal(wire)
+		if err != nil {
+			return vh.V("C04/wire-form-not-readable", "Unmarshal(Marshal(v)): %v", err), o
+		}
+		if [32]byte(u.SigningMsg()) != wantDigest {
+			return vh.V("C04/digest-from-wire-differs", "the digest of Unmarshal(Marshal(v)) differs from the digest of v (payload %d bytes, decoded payload %d bytes)", len(b.Payload), len(u.Payload)), o
+		}
+		if len(b.Payload) > 1000 {
+			o.Labels = append(o.Labels, "wire-digest-long-payload")
+		}
+	}
 	// (b) header independence
 	w := c.V
 	w.Version, w.GSIndex, w.Sigs, w.Nanos = c.Version2, c.GS2, c.Sigs2, c.Nanos2
